@@ -1,4 +1,4 @@
-(* C09K — source tie BY TRANSLATION for the component layer — every validator and constructor of the component layer returns (error or value) for every argument, nil tensors, nil configs and nil pointers included: none panics.
+(* C09K — source tie BY TRANSLATION for the component layer — every validator and constructor of the component layer returns (error or value) for every argument, nil tensors, nil configs and nil pointers included: none panics; package tensor's public entry points return the validation error or exactly the cputensor / gradtrack call (their 'unreachable' panic is unreachable); layers.Input needs a seed function and no inputs.
    Statements only (proofs: Proofs/Comp*P.v).  Model/GoComp.v is REGENERATED from /repo's Go sources on every run by
    harness/gox (comp.go): the component layer's own logic — input validators, config validators, constructors, the
    scale formulas of the initializers, the Accuracy counters — as loop-free programs of the imperative language of
@@ -12,9 +12,9 @@
    the same thing.  Closed under the global context. *)
 From Coq Require Import String List ZArith Bool Arith.
 From Qeep Require Import Model.Scalar Model.Nd Model.Fill Model.Data Model.Valid Model.Api Model.Grad Model.Backprop Model.Components Model.Consts Model.DataIR Model.HeapExt Model.CompExt.
-From Qeep Require Model.GoComp.
+From Qeep Require Model.GoComp Model.GoWrap Model.DataExt Model.RandExt.
 From Qeep Require Import Proofs.DataIRP.
-From Qeep Require Proofs.CompValidP Proofs.CompAccP Proofs.CompInitP.
+From Qeep Require Proofs.CompValidP Proofs.CompAccP Proofs.CompInitP Proofs.CompInputP Proofs.CompFcP Proofs.CompTensorP Proofs.DataRandP Proofs.FillP Proofs.NdP.
 Import ListNotations.
 Local Open Scope string_scope.
 
@@ -284,3 +284,371 @@ Theorem Accuracy_Result_total :
       [DI (Z.of_nat (acc_total a)); DF (acc_correct a)] h = DRet heap [DF (acc_result a); DI 0] h g l.
 Proof. exact @CompAccP.Result_run. Qed.
 Print Assumptions Accuracy_Result_total.
+
+Theorem NewInput :
+  forall (A : Type) (SA : Scalar A) (fltb fleb : A -> A -> bool)
+    (lib : string -> list dval -> heap -> option (list dval * heap)) (fuel depth : nat) 
+    (h : heap),
+  CompInputP.outcome (drun cfapp heap (cext0 fltb fleb lib) GoComp.c_Input_NewInput fuel depth [] h) =
+  Some ([DL [DNil]], h).
+Proof. exact @CompInputP.NewInput_run. Qed.
+Print Assumptions NewInput.
+
+Theorem Input_validateInputs_rejects_any_tensor :
+  forall (A : Type) (SA : Scalar A) (fltb fleb : A -> A -> bool)
+    (lib : string -> list dval -> heap -> option (list dval * heap)) (fuel depth : nat) 
+    (h : heap) (seed : dval) (xs : list dval),
+  CompInputP.outcome
+    (drun cfapp heap (cext0 fltb fleb lib) GoComp.c_Input_validateInputs fuel depth [seed; DL xs] h) =
+  Some ([DI match xs with
+            | [] => 0
+            | _ :: _ => 1
+            end], h).
+Proof. exact @CompInputP.Input_validateInputs_spec. Qed.
+Print Assumptions Input_validateInputs_rejects_any_tensor.
+
+Theorem Input_Forward_needs_a_seed_function_and_no_inputs :
+  forall (A : Type) (SA : Scalar A) (fltb fleb : A -> A -> bool)
+    (lib : string -> list dval -> heap -> option (list dval * heap)) (fuel depth : nat) 
+    (h : heap) (seed : dval) (xs : list dval),
+  let o := drun cfapp heap (cext fltb fleb lib) GoComp.c_Input_Forward fuel depth [seed; DL xs] h in
+  match xs with
+  | [] =>
+      match seed with
+      | DNil => CompInputP.outcome o = Some ([DNil; DI 1], h)
+      | _ =>
+          match lib "call" [seed] h with
+          | Some ([y], h') => CompInputP.outcome o = Some ([y; DI 0], h')
+          | Some (y :: _ :: _, _) => o = DPanic heap
+          | _ => o = DPanic heap
+          end
+      end
+  | _ :: _ => CompInputP.outcome o = Some ([DNil; DI 1], h)
+  end.
+Proof. exact @CompInputP.Input_Forward_run. Qed.
+Print Assumptions Input_Forward_needs_a_seed_function_and_no_inputs.
+
+Theorem tensor_validateConfig :
+  forall (A : Type) (SA : Scalar A) (fltb fleb : A -> A -> bool)
+    (lib : string -> list dval -> heap -> option (list dval * heap)) (fuel depth : nat)
+    (c : option (Z * dval)) (h : heap),
+  CompTensorP.outcome
+    (drun cfapp heap (cext0 fltb fleb lib) GoComp.c_tensor_validateConfig fuel depth
+       [CompTensorP.cfgOf c] h) = Some ([CompTensorP.flag (CompTensorP.devOk c)], h).
+Proof. exact @CompTensorP.validateConfig_spec. Qed.
+Print Assumptions tensor_validateConfig.
+
+Theorem tensor_prepareConfig :
+  forall (A : Type) (SA : Scalar A) (fltb fleb : A -> A -> bool)
+    (lib : string -> list dval -> heap -> option (list dval * heap)) (fuel depth : nat)
+    (c : option (Z * dval)) (h : heap),
+  CompTensorP.outcome
+    (drun cfapp heap (cext fltb fleb lib) GoComp.c_tensor_prepareConfig fuel depth [
+       CompTensorP.cfgOf c] h) = Some (CompTensorP.prepared c, h).
+Proof. exact @CompTensorP.prepareConfig_spec. Qed.
+Print Assumptions tensor_prepareConfig.
+
+Theorem tensor_prepareConfig_ok_means_CPU :
+  forall (A : Type) (SA : Scalar A) (fltb fleb : A -> A -> bool)
+    (lib : string -> list dval -> heap -> option (list dval * heap)) (fuel depth : nat)
+    (c : option (Z * dval)) (cv : dval) (h h' : heap),
+  CompTensorP.outcome
+    (drun cfapp heap (cext fltb fleb lib) GoComp.c_tensor_prepareConfig fuel depth [
+       CompTensorP.cfgOf c] h) = Some ([cv; DI 0], h') -> exists b : dval, cv = DL [DI 1; b].
+Proof. exact @CompTensorP.prepareConfig_ok_device. Qed.
+Print Assumptions tensor_prepareConfig_ok_means_CPU.
+
+Theorem tensor_validateTensorDevice :
+  forall (A : Type) (SA : Scalar A) (fltb fleb : A -> A -> bool)
+    (lib : string -> list dval -> heap -> option (list dval * heap)) (fuel depth : nat) 
+    (v : dval) (h : heap),
+  CompTensorP.outcome
+    (drun cfapp heap (cext0 fltb fleb lib) GoComp.c_tensor_validateTensorDevice fuel depth [v] h) =
+  Some ([CompTensorP.flag (CompTensorP.isNode v)], h).
+Proof. exact @CompTensorP.validateTensorDevice_spec. Qed.
+Print Assumptions tensor_validateTensorDevice.
+
+Theorem tensor_validateTensorsDeviceUnity :
+  forall (A : Type) (SA : Scalar A) (fltb fleb : A -> A -> bool)
+    (lib : string -> list dval -> heap -> option (list dval * heap)) (fuel depth : nat) 
+    (vs : list dval) (h : heap),
+  CompTensorP.outcome
+    (drun cfapp heap (cext0 fltb fleb lib) GoComp.c_tensor_validateTensorsDeviceUnity fuel depth [
+       DL vs] h) = Some ([CompTensorP.flag (CompTensorP.unityOk vs)], h).
+Proof. exact @CompTensorP.validateTensorsDeviceUnity_spec. Qed.
+Print Assumptions tensor_validateTensorsDeviceUnity.
+
+Theorem tensor_validateTensorsDeviceUnity_accepts_iff :
+  forall (A : Type) (SA : Scalar A) (fltb fleb : A -> A -> bool)
+    (lib : string -> list dval -> heap -> option (list dval * heap)) (fuel depth : nat) 
+    (vs : list dval) (h : heap),
+  CompTensorP.outcome
+    (drun cfapp heap (cext0 fltb fleb lib) GoComp.c_tensor_validateTensorsDeviceUnity fuel depth [
+       DL vs] h) = Some ([DI 0], h) <->
+  2 <= Datatypes.length vs /\ (forall v : dval, In v vs -> exists n : Z, v = DI n).
+Proof. exact @CompTensorP.validateTensorsDeviceUnity_accepts_iff. Qed.
+Print Assumptions tensor_validateTensorsDeviceUnity_accepts_iff.
+
+Theorem tensor_validateTensorsDeviceUnity_never_panics :
+  forall (A : Type) (SA : Scalar A) (fltb fleb : A -> A -> bool)
+    (lib : string -> list dval -> heap -> option (list dval * heap)) (fuel depth : nat) 
+    (vs : list dval) (h : heap),
+  drun cfapp heap (cext0 fltb fleb lib) GoComp.c_tensor_validateTensorsDeviceUnity fuel depth [DL vs] h <>
+  DPanic heap.
+Proof. exact @CompTensorP.validateTensorsDeviceUnity_total. Qed.
+Print Assumptions tensor_validateTensorsDeviceUnity_never_panics.
+
+Theorem tensor_Full :
+  forall (A : Type) (SA : Scalar A) (fltb fleb : A -> A -> bool)
+    (lib : string -> list dval -> heap -> option (list dval * heap)) (fuel depth : nat)
+    (dims value : dval) (c : option (Z * dval)) (h : heap),
+  if CompTensorP.devOk c
+  then
+   CompTensorP.isCall
+     (drun cfapp heap (cext2 fltb fleb lib) GoComp.c_tensor_Full fuel depth
+        [dims; value; CompTensorP.cfgOf c] h)
+     (lib "cputensor.Full" [dims; value; CompTensorP.gradOfCfg c] h)
+  else
+   CompTensorP.outcome
+     (drun cfapp heap (cext2 fltb fleb lib) GoComp.c_tensor_Full fuel depth
+        [dims; value; CompTensorP.cfgOf c] h) = Some ([DNil; DI 1], h).
+Proof. exact @CompTensorP.Full_spec. Qed.
+Print Assumptions tensor_Full.
+
+Theorem tensor_Zeros :
+  forall (A : Type) (SA : Scalar A) (fltb fleb : A -> A -> bool)
+    (lib : string -> list dval -> heap -> option (list dval * heap)) (fuel depth : nat) 
+    (dims : dval) (c : option (Z * dval)) (h : heap),
+  if CompTensorP.devOk c
+  then
+   CompTensorP.isCall
+     (drun cfapp heap (cext2 fltb fleb lib) GoComp.c_tensor_Zeros fuel depth [
+        dims; CompTensorP.cfgOf c] h) (lib "cputensor.Zeros" [dims; CompTensorP.gradOfCfg c] h)
+  else
+   CompTensorP.outcome
+     (drun cfapp heap (cext2 fltb fleb lib) GoComp.c_tensor_Zeros fuel depth [
+        dims; CompTensorP.cfgOf c] h) = Some ([DNil; DI 1], h).
+Proof. exact @CompTensorP.Zeros_spec. Qed.
+Print Assumptions tensor_Zeros.
+
+Theorem tensor_Ones :
+  forall (A : Type) (SA : Scalar A) (fltb fleb : A -> A -> bool)
+    (lib : string -> list dval -> heap -> option (list dval * heap)) (fuel depth : nat) 
+    (dims : dval) (c : option (Z * dval)) (h : heap),
+  if CompTensorP.devOk c
+  then
+   CompTensorP.isCall
+     (drun cfapp heap (cext2 fltb fleb lib) GoComp.c_tensor_Ones fuel depth [
+        dims; CompTensorP.cfgOf c] h) (lib "cputensor.Ones" [dims; CompTensorP.gradOfCfg c] h)
+  else
+   CompTensorP.outcome
+     (drun cfapp heap (cext2 fltb fleb lib) GoComp.c_tensor_Ones fuel depth [
+        dims; CompTensorP.cfgOf c] h) = Some ([DNil; DI 1], h).
+Proof. exact @CompTensorP.Ones_spec. Qed.
+Print Assumptions tensor_Ones.
+
+Theorem tensor_Eye :
+  forall (A : Type) (SA : Scalar A) (fltb fleb : A -> A -> bool)
+    (lib : string -> list dval -> heap -> option (list dval * heap)) (fuel depth : nat) 
+    (n : dval) (c : option (Z * dval)) (h : heap),
+  if CompTensorP.devOk c
+  then
+   CompTensorP.isCall
+     (drun cfapp heap (cext2 fltb fleb lib) GoComp.c_tensor_Eye fuel depth [n; CompTensorP.cfgOf c] h)
+     (lib "cputensor.Eye" [n; CompTensorP.gradOfCfg c] h)
+  else
+   CompTensorP.outcome
+     (drun cfapp heap (cext2 fltb fleb lib) GoComp.c_tensor_Eye fuel depth [n; CompTensorP.cfgOf c] h) =
+   Some ([DNil; DI 1], h).
+Proof. exact @CompTensorP.Eye_spec. Qed.
+Print Assumptions tensor_Eye.
+
+Theorem tensor_RandU :
+  forall (A : Type) (SA : Scalar A) (fltb fleb : A -> A -> bool)
+    (lib : string -> list dval -> heap -> option (list dval * heap)) (fuel depth : nat)
+    (dims l u : dval) (c : option (Z * dval)) (h : heap),
+  if CompTensorP.devOk c
+  then
+   CompTensorP.isCall
+     (drun cfapp heap (cext2 fltb fleb lib) GoComp.c_tensor_RandU fuel depth
+        [dims; l; u; CompTensorP.cfgOf c] h)
+     (lib "cputensor.RandU" [dims; l; u; CompTensorP.gradOfCfg c] h)
+  else
+   CompTensorP.outcome
+     (drun cfapp heap (cext2 fltb fleb lib) GoComp.c_tensor_RandU fuel depth
+        [dims; l; u; CompTensorP.cfgOf c] h) = Some ([DNil; DI 1], h).
+Proof. exact @CompTensorP.RandU_spec. Qed.
+Print Assumptions tensor_RandU.
+
+Theorem tensor_RandN :
+  forall (A : Type) (SA : Scalar A) (fltb fleb : A -> A -> bool)
+    (lib : string -> list dval -> heap -> option (list dval * heap)) (fuel depth : nat)
+    (dims u s : dval) (c : option (Z * dval)) (h : heap),
+  if CompTensorP.devOk c
+  then
+   CompTensorP.isCall
+     (drun cfapp heap (cext2 fltb fleb lib) GoComp.c_tensor_RandN fuel depth
+        [dims; u; s; CompTensorP.cfgOf c] h)
+     (lib "cputensor.RandN" [dims; u; s; CompTensorP.gradOfCfg c] h)
+  else
+   CompTensorP.outcome
+     (drun cfapp heap (cext2 fltb fleb lib) GoComp.c_tensor_RandN fuel depth
+        [dims; u; s; CompTensorP.cfgOf c] h) = Some ([DNil; DI 1], h).
+Proof. exact @CompTensorP.RandN_spec. Qed.
+Print Assumptions tensor_RandN.
+
+Theorem tensor_TensorOf :
+  forall (A : Type) (SA : Scalar A) (fltb fleb : A -> A -> bool)
+    (lib : string -> list dval -> heap -> option (list dval * heap)) (fuel depth : nat) 
+    (data : dval) (c : option (Z * dval)) (h : heap),
+  if CompTensorP.devOk c
+  then
+   CompTensorP.isCall
+     (drun cfapp heap (cext2 fltb fleb lib) GoComp.c_tensor_TensorOf fuel depth
+        [data; CompTensorP.cfgOf c] h) (lib "cputensor.TensorOf" [data; CompTensorP.gradOfCfg c] h)
+  else
+   CompTensorP.outcome
+     (drun cfapp heap (cext2 fltb fleb lib) GoComp.c_tensor_TensorOf fuel depth
+        [data; CompTensorP.cfgOf c] h) = Some ([DNil; DI 1], h).
+Proof. exact @CompTensorP.TensorOf_spec. Qed.
+Print Assumptions tensor_TensorOf.
+
+Theorem tensor_Full_never_reaches_its_panic :
+  forall (A : Type) (SA : Scalar A) (fltb fleb : A -> A -> bool)
+    (lib : string -> list dval -> heap -> option (list dval * heap)) (fuel depth : nat)
+    (dims value : dval) (c : option (Z * dval)) (h : heap),
+  drun cfapp heap (cext2 fltb fleb lib) GoComp.c_tensor_Full fuel depth
+    [dims; value; CompTensorP.cfgOf c] h = DPanic heap ->
+  CompTensorP.libFails 2 (lib "cputensor.Full" [dims; value; CompTensorP.gradOfCfg c] h).
+Proof. exact @CompTensorP.Full_never_reaches_its_panic. Qed.
+Print Assumptions tensor_Full_never_reaches_its_panic.
+
+Theorem tensor_Zeros_never_reaches_its_panic :
+  forall (A : Type) (SA : Scalar A) (fltb fleb : A -> A -> bool)
+    (lib : string -> list dval -> heap -> option (list dval * heap)) (fuel depth : nat) 
+    (dims : dval) (c : option (Z * dval)) (h : heap),
+  drun cfapp heap (cext2 fltb fleb lib) GoComp.c_tensor_Zeros fuel depth [dims; CompTensorP.cfgOf c] h =
+  DPanic heap -> CompTensorP.libFails 2 (lib "cputensor.Zeros" [dims; CompTensorP.gradOfCfg c] h).
+Proof. exact @CompTensorP.Zeros_never_reaches_its_panic. Qed.
+Print Assumptions tensor_Zeros_never_reaches_its_panic.
+
+Theorem tensor_Ones_never_reaches_its_panic :
+  forall (A : Type) (SA : Scalar A) (fltb fleb : A -> A -> bool)
+    (lib : string -> list dval -> heap -> option (list dval * heap)) (fuel depth : nat) 
+    (dims : dval) (c : option (Z * dval)) (h : heap),
+  drun cfapp heap (cext2 fltb fleb lib) GoComp.c_tensor_Ones fuel depth [dims; CompTensorP.cfgOf c] h =
+  DPanic heap -> CompTensorP.libFails 2 (lib "cputensor.Ones" [dims; CompTensorP.gradOfCfg c] h).
+Proof. exact @CompTensorP.Ones_never_reaches_its_panic. Qed.
+Print Assumptions tensor_Ones_never_reaches_its_panic.
+
+Theorem tensor_Eye_never_reaches_its_panic :
+  forall (A : Type) (SA : Scalar A) (fltb fleb : A -> A -> bool)
+    (lib : string -> list dval -> heap -> option (list dval * heap)) (fuel depth : nat) 
+    (n : dval) (c : option (Z * dval)) (h : heap),
+  drun cfapp heap (cext2 fltb fleb lib) GoComp.c_tensor_Eye fuel depth [n; CompTensorP.cfgOf c] h =
+  DPanic heap -> CompTensorP.libFails 2 (lib "cputensor.Eye" [n; CompTensorP.gradOfCfg c] h).
+Proof. exact @CompTensorP.Eye_never_reaches_its_panic. Qed.
+Print Assumptions tensor_Eye_never_reaches_its_panic.
+
+Theorem tensor_RandU_never_reaches_its_panic :
+  forall (A : Type) (SA : Scalar A) (fltb fleb : A -> A -> bool)
+    (lib : string -> list dval -> heap -> option (list dval * heap)) (fuel depth : nat)
+    (dims l u : dval) (c : option (Z * dval)) (h : heap),
+  drun cfapp heap (cext2 fltb fleb lib) GoComp.c_tensor_RandU fuel depth
+    [dims; l; u; CompTensorP.cfgOf c] h = DPanic heap ->
+  CompTensorP.libFails 2 (lib "cputensor.RandU" [dims; l; u; CompTensorP.gradOfCfg c] h).
+Proof. exact @CompTensorP.RandU_never_reaches_its_panic. Qed.
+Print Assumptions tensor_RandU_never_reaches_its_panic.
+
+Theorem tensor_RandN_never_reaches_its_panic :
+  forall (A : Type) (SA : Scalar A) (fltb fleb : A -> A -> bool)
+    (lib : string -> list dval -> heap -> option (list dval * heap)) (fuel depth : nat)
+    (dims u s : dval) (c : option (Z * dval)) (h : heap),
+  drun cfapp heap (cext2 fltb fleb lib) GoComp.c_tensor_RandN fuel depth
+    [dims; u; s; CompTensorP.cfgOf c] h = DPanic heap ->
+  CompTensorP.libFails 2 (lib "cputensor.RandN" [dims; u; s; CompTensorP.gradOfCfg c] h).
+Proof. exact @CompTensorP.RandN_never_reaches_its_panic. Qed.
+Print Assumptions tensor_RandN_never_reaches_its_panic.
+
+Theorem tensor_TensorOf_never_reaches_its_panic :
+  forall (A : Type) (SA : Scalar A) (fltb fleb : A -> A -> bool)
+    (lib : string -> list dval -> heap -> option (list dval * heap)) (fuel depth : nat) 
+    (data : dval) (c : option (Z * dval)) (h : heap),
+  drun cfapp heap (cext2 fltb fleb lib) GoComp.c_tensor_TensorOf fuel depth [
+    data; CompTensorP.cfgOf c] h = DPanic heap ->
+  CompTensorP.libFails 2 (lib "cputensor.TensorOf" [data; CompTensorP.gradOfCfg c] h).
+Proof. exact @CompTensorP.TensorOf_never_reaches_its_panic. Qed.
+Print Assumptions tensor_TensorOf_never_reaches_its_panic.
+
+Theorem tensor_Concat :
+  forall (A : Type) (SA : Scalar A) (fltb fleb : A -> A -> bool)
+    (lib : string -> list dval -> heap -> option (list dval * heap)) (fuel depth : nat) 
+    (vs : list dval) (dim : dval) (h : heap),
+  if CompTensorP.unityOk vs
+  then
+   CompTensorP.isCall
+     (drun cfapp heap (cext2 fltb fleb lib) GoComp.c_tensor_Concat fuel depth [DL vs; dim] h)
+     (lib "cputensor.Concat" [DL vs; dim] h)
+  else
+   CompTensorP.outcome
+     (drun cfapp heap (cext2 fltb fleb lib) GoComp.c_tensor_Concat fuel depth [DL vs; dim] h) =
+   Some ([DNil; DI 1], h).
+Proof. exact @CompTensorP.Concat_spec. Qed.
+Print Assumptions tensor_Concat.
+
+Theorem tensor_Concat_never_reaches_its_panic :
+  forall (A : Type) (SA : Scalar A) (fltb fleb : A -> A -> bool)
+    (lib : string -> list dval -> heap -> option (list dval * heap)) (fuel depth : nat) 
+    (vs : list dval) (dim : dval) (h : heap),
+  drun cfapp heap (cext2 fltb fleb lib) GoComp.c_tensor_Concat fuel depth [DL vs; dim] h = DPanic heap ->
+  CompTensorP.libFails 2 (lib "cputensor.Concat" [DL vs; dim] h).
+Proof. exact @CompTensorP.Concat_never_reaches_its_panic. Qed.
+Print Assumptions tensor_Concat_never_reaches_its_panic.
+
+Theorem tensor_BackPropagate :
+  forall (A : Type) (SA : Scalar A) (fltb fleb : A -> A -> bool)
+    (lib : string -> list dval -> heap -> option (list dval * heap)) (fuel depth : nat) 
+    (v : dval) (h : heap),
+  if CompTensorP.isNode v
+  then
+   CompTensorP.isCall1
+     (drun cfapp heap (cext fltb fleb lib) GoComp.c_tensor_BackPropagate fuel depth [v] h)
+     (lib "gradtrack.BackPropagate" [v] h)
+  else
+   CompTensorP.outcome
+     (drun cfapp heap (cext fltb fleb lib) GoComp.c_tensor_BackPropagate fuel depth [v] h) =
+   Some ([DI 1], h).
+Proof. exact @CompTensorP.BackPropagate_spec. Qed.
+Print Assumptions tensor_BackPropagate.
+
+Theorem NewFC_rejects_nil :
+  forall (A : Type) (SA : Scalar A) (fltb fleb : A -> A -> bool)
+    (lib : string -> list dval -> heap -> option (list dval * heap)) (fuel depth : nat) 
+    (h : heap),
+  CompFcP.outcome (drun cfapp heap (cext3 fltb fleb lib) GoComp.c_FC_NewFC fuel depth [DNil] h) =
+  Some ([DNil; DI 1], h).
+Proof. exact @CompFcP.NewFC_nil. Qed.
+Print Assumptions NewFC_rejects_nil.
+
+Theorem NewFC_rejects_what_the_config_validator_rejects :
+  forall (A : Type) (SA : Scalar A) (fltb fleb : A -> A -> bool)
+    (lib : string -> list dval -> heap -> option (list dval * heap)) (fuel depth : nat)
+    (inputs outputs : Z) (mp : option (option dval * option dval)) (h : heap),
+  CompFcP.fcReject inputs outputs mp = true ->
+  CompFcP.outcome
+    (drun cfapp heap (cext3 fltb fleb lib) GoComp.c_FC_NewFC fuel depth
+       [CompFcP.fcConf inputs outputs (CompFcP.fcMap mp)] h) = Some ([DNil; DI 1], h).
+Proof. exact @CompFcP.NewFC_reject. Qed.
+Print Assumptions NewFC_rejects_what_the_config_validator_rejects.
+
+Theorem toValidFCConfig_exact :
+  forall (A : Type) (SA : Scalar A) (fltb fleb : A -> A -> bool)
+    (lib : string -> list dval -> heap -> option (list dval * heap)) (fuel depth : nat)
+    (inputs outputs : Z) (mp : option (option dval * option dval)) (h : heap),
+  CompFcP.outcome
+    (drun cfapp heap (cext2 fltb fleb lib) GoComp.c_FC_toValidFCConfig fuel depth
+       [CompFcP.fcConf inputs outputs (CompFcP.fcMap mp)] h) =
+  Some
+    ([fst (CompFcP.fcValidated inputs outputs mp); DI (snd (CompFcP.fcValidated inputs outputs mp))], h).
+Proof. exact @CompFcP.toValidFCConfig_spec. Qed.
+Print Assumptions toValidFCConfig_exact.
